@@ -530,8 +530,65 @@ def value_class_rule(ck, facts):
         ck.bad("R13.11", "R13.11@sparql_eq#shape", "no path of sparql_eq distinguishes the value classes of its two operands", fn.loc)
 
 
+LITERAL_PARSING = r"XsdDateTime::new($|::)|XsdDateTime as std::str::FromStr>::from_str$|SparqlValue::try_from_literal($|::)|SparqlNumber::try_parse"
+DT = "value::_xsd_date_time::XsdDateTime::new"
+DATETIME_REF = r"^(-)?([0-9]{4,})-([0-9]{2}-[0-9]{2}T[0-9]{2}:[0-9]{2}:[0-9]{2})(?:\.([0-9]+))?(Z|[-+][0-9]{2}:[0-9]{2})?$"
+LITERAL_TABLE = {
+    DT + "#unwrap:unwrap:call:regex::Captures::<'h>::get":
+        (2, "groups 2 (year) and 3 (month..second) are not optional in the pattern: present whenever it matches (pattern shape: L13.12)"),
+    DT + "#unwrap:unwrap:call:core::str::<impl str>::parse":
+        (7, "month, day, hour, minute, second and the two time-zone fields are exactly two ASCII digits (pattern shape: L13.12): parse::<u32/i32> "
+            "cannot fail. The *year* has no bound on its digits and must NOT be unwrapped (it was: fixed in f5c2f8e)"),
+    DT + "#index:str:Range": (6, "fixed offsets inside group 3 (exactly 19 ASCII bytes `MM-DDTHH:MM:SS`) and inside the 6-byte zone `+HH:MM`"),
+    DT + "#index:str:RangeTo": (2, "as above: `..2` of group 3, `..1` of the zone"),
+    DT + "#assert:overflow:Mul:-": (4, "sign * year with |year| <= i32::MAX after the checked parse; hh*3600, mm*60, sign*(..) with two-digit hh, mm"),
+    DT + "#assert:overflow:Add:-": (1, "hh*3600 + mm*60 with two-digit hh, mm"),
+    DT + "::{closure#1}#index:str:RangeTo": (1, "`fraction[..9]` under `fraction.len() >= 9`, ASCII digits"),
+    DT + "::{closure#1}#unwrap:unwrap:call:core::str::<impl str>::parse": (2, "at most 9 ASCII digits: fits in u32"),
+    DT + "::{closure#1}#assert:overflow:Sub:-": (1, "9 - len under len < 9"),
+    DT + "::{closure#1}#assert:overflow:Mul:-": (1, "value < 10^len times 10^(9-len) < 10^9 < u32::MAX"),
+}
+
+
+def literal_parsing_rule(ck, facts):
+    """R13.12: turning a literal of the *data* into a value never panics (any literal can occur in a dataset, and a value is
+    computed as soon as a FILTER / BIND / ORDER BY looks at it).  Panic audit of the literal parsers; the audited reasons
+    about digit counts rest on the shape of the dateTime pattern, which is itself checked against a reference (L13.12)."""
+    from core import Relang
+    from mirutil import patterns_by_owner, union_pattern
+    fns = [f for f in facts.fns.values() if f.crate == "sophia_sparql" and re.search(LITERAL_PARSING, f.name)]
+    ck.floor("R13.12", "literal-parsing functions", len(fns), 8)
+    owners = patterns_by_owner(facts, ["sophia_sparql"])
+    hits = [o for o in owners if o.endswith("XsdDateTime::new::RE") or re.search(r"_xsd_date_time::.*::new::RE$", o)]
+    if len(hits) != 1:
+        ck.bad("R13.12", "L13.12@XsdDateTime::new#pattern", "anchor-missing: the dateTime pattern (%d)" % len(hits))
+    else:
+        rl = Relang()
+        rl.lang("REPO_DATETIME", union_pattern([p["value"] for s_ in owners[hits[0]] for p in s_["patterns"]]))
+        rl.lang("REF_DATETIME", DATETIME_REF)
+        rl.equal("L13.12:dateTime-pattern-shape", "REPO_DATETIME", "REF_DATETIME")
+        linfo, res = rl.run()
+        for oid, r in sorted(res.items()):
+            ck.obligation(oid, r["empty"], "" if r["empty"] else "the audited digit-count reasons no longer hold: %s" % r["witnesses"], witnesses=r["witnesses"])
+            if not r["empty"]:
+                ck.bad("R13.12", "L13.12@%s" % oid, "the dateTime pattern differs from the shape the panic audit relies on (witnesses %s)" % r["witnesses"])
+    sites = []
+    for f in sorted(fns, key=lambda x: x.id):
+        sites += panics.sites_of(f)
+    panics.classify(facts, sites, LITERAL_TABLE)
+    for st in sites:
+        if st.kind == "validator-call":
+            continue
+        if st.status in ("auto", "audited"):
+            ck.ok("R13.12", st.key, st.reason)
+        else:
+            ck.bad("R13.12", "R13.12@" + st.key, "turning a literal of the data into a value can panic here (%s %s, %s): neither guarded nor audited"
+                   % (st.kind, st.what, st.detail), st.loc)
+
+
 def run(ck, facts, tier):
     facts.require_crates(["sophia_sparql"])
+    literal_parsing_rule(ck, facts)
     error_semantics_rule(ck, facts)
     value_class_rule(ck, facts)
     select_rule(ck, facts)
